@@ -16,6 +16,9 @@ import traceback
 from . import engine
 
 
+CASE_TIMEOUT = 60
+
+
 class Case:
     """One protocol case. `payload` is JSON (sent to the driver as it is); `aux` is whatever the
     implementation side needs in addition and can be rebuilt from `payload` by `Prop.rebuild`."""
@@ -131,12 +134,36 @@ def _worker(args):
     except engine.MachineryError:
         driver = None
     out = []
+    import signal
+
+    def on_alarm(signum, frame):
+        raise TimeoutError('case did not finish within %d s' % CASE_TIMEOUT)
+    signal.signal(signal.SIGALRM, on_alarm)
     for seed in seeds:
         rnd = random.Random(seed)
+        case = None
         try:
+            signal.alarm(CASE_TIMEOUT)
             case = prop.gen_case(rnd, tier)
             res, io, mo = prop.run_case(case, driver)
+            signal.alarm(0)
+        except TimeoutError as e:
+            signal.alarm(0)
+            res = Result()
+            # a hang of the implementation on a generated input is reported as a violation with
+            # the input as replay (the oracle could not be evaluated)
+            if case is not None:
+                res.violations.append(str(e))
+            else:
+                res.error = str(e)
+            if driver:
+                driver.close()
+            try:
+                driver = engine.Driver()
+            except engine.MachineryError:
+                driver = None
         except Exception:
+            signal.alarm(0)
             res = Result()
             res.error = traceback.format_exc()[-1500:]
             case = None
